@@ -5,13 +5,16 @@
 #include <vata/incl_param.hh>
 #include <vata/sim_param.hh>
 template <class Aut>
-static bool prepared_inclusion(Aut smaller, Aut bigger, bool up, bool rec, bool optC, bool sim, bool direct = false)
+static bool prepared_inclusion(Aut smaller, Aut bigger, bool up, bool rec, bool optC, bool sim, int direct = 0, unsigned directStates = 0)
 {
   using namespace VATA;
   // direct: the selections without simulation sanitise copies of their operands themselves (CheckInclusion in
   // src/*_incl.cc), so they may be called on the automata as built (useless states, overlapping state numbers)
   AutBase::StateType states = 0;
-  if (sim || !direct) states = AutBase::SanitizeAutsForInclusion(smaller, bigger);
+  // direct == 2 (memory-safety queries only, C20): also the selections with simulation get the automata as built - the caller
+  // numbered the states of both operands densely and disjointly (directStates states in all), nothing is trimmed
+  if (direct == 2) states = directStates;
+  else if (sim || !direct) states = AutBase::SanitizeAutsForInclusion(smaller, bigger);
   InclParam ip;
   ip.SetAlgorithm(InclParam::e_algorithm::antichains);
   ip.SetDirection(up ? InclParam::e_direction::upward : InclParam::e_direction::downward);
